@@ -465,9 +465,13 @@ func (b *Bitmap) CountRange(start, end uint64) (n uint64) {
 	citer, found := b.Containers.Iterator(highbits(start))
 	// If range is entirely in one container then just count that range.
 	if found && skey == ekey {
-		citer.Next()
-		_, c := citer.Value()
-		return uint64(c.countRange(int32(lowbits(start)), int32(lowbits(end))))
+		// the iterator skips nil containers, so make sure it really stopped at skey
+		if citer.Next() {
+			if k, c := citer.Value(); k == skey {
+				return uint64(c.countRange(int32(lowbits(start)), int32(lowbits(end))))
+			}
+		}
+		return 0
 	}
 
 	for citer.Next() {
